@@ -519,6 +519,9 @@ func runC01(ctx *core.Ctx) {
 	if only == "files" {
 		c01Files(ctx)
 	}
+	if only == "twice" {
+		c01Twice(ctx)
+	}
 	if only == "unreadable" {
 		c01Unreadable(ctx)
 	}
@@ -537,6 +540,7 @@ func runC01(ctx *core.Ctx) {
 		c01Tags(ctx, rich)
 		c01Names(ctx, rich)
 		c01Missing(ctx)
+		c01Twice(ctx) // one referenced file, several references: spellings × required flags × services (c01_twice.go)
 		c01Unreadable(ctx)
 		c01Kinds(ctx, sch, rich)
 		c01Seqified(ctx, sch, rich) // a mapping on the way replaced by the list of its values (c01_seqified.go)
